@@ -9,6 +9,8 @@ CONSTANTS
   FixDup = FALSE
   AutoSave = FALSE
   MaxEnv = 0
+  Names = FALSE
+  RoundRobin = FALSE
   FullLast = FALSE
   DupAlso = TRUE
 INVARIANTS Safe SafeWire
